@@ -266,19 +266,82 @@ func checkC17(tier, replay string) int {
 			ctx.Sample(map[string]any{"history": h, "final_exit": final.Exit, "final_reused_cache": usedCache})
 		}
 	})
-	// a different binary (different hash) at the same path never reuses the cache
+	// "for the exact binary": the file at the same path is replaced by a different binary (its disassembly is the other
+	// listing); the next run must profile the new one, also when hashing it hits a read error
 	{
-		bin, cache := newBin()
-		r1 := runProf(bin, small, nil)
-		os.Remove(bin)
-		copyFile(pe.hello["386"], bin) // other content, same path
-		r2 := runProf(bin, small, nil)
-		runs += 2
-		if r1.Exit == 0 && strings.Contains(r2.Stderr, "Using cached objdump") {
-			ctx.Violation("C17:other-binary-reuses-cache", "a binary with a different SHA-256 at the same path reused the cached disassembly", nil)
+		type repl struct {
+			Kind      string `json:"kind"`       // other-arch | patched-after-linking
+			HashFault int    `json:"hash_fault"` // 0: none; N: the N-th read(2) of the binary fails with EIO in the final run
 		}
-		os.Remove(cache)
-		os.Remove(bin)
+		var rs []repl
+		for _, k := range []string{"other-arch", "patched-after-linking"} {
+			rs = append(rs, repl{k, 0})
+			if haveStrace == nil {
+				for n := 1; n <= 3; n++ {
+					rs = append(rs, repl{k, n})
+				}
+			}
+		}
+		// second listing: the small one plus two more syscall sites
+		small2 := filepath.Join(scratch, "small2.lst")
+		L2 := L + "TEXT main.more(SB) /src/main.go\n  main.go:900\t0x1\t90\tMOVQ $0x65, AX\n  main.go:901\t0x2\t0f05\tSYSCALL\n  main.go:902\t0x1\t90\tMOVQ $0xa5, AX\n  main.go:903\t0x2\t0f05\tSYSCALL\n"
+		os.WriteFile(small2, []byte(L2), 0o644)
+		binC, cacheC := newBin()
+		rc := runProf(binC, small2, nil)
+		cold2 := rc.Stdout
+		os.Remove(cacheC)
+		os.Remove(binC)
+		if rc.Exit != 0 || !strings.Contains(cold2, "ptrace") || cold2 == cold[small] {
+			ctx.Capped("second listing did not yield a larger cold profile")
+		} else {
+			parallelFor(len(rs), func(i int) {
+				r := rs[i]
+				bin, cache := newBin()
+				defer os.Remove(cache)
+				defer os.Remove(bin)
+				r1 := runProf(bin, small, nil)
+				atomic.AddInt64(&runs, 1)
+				if r1.Exit != 0 {
+					return
+				}
+				// replace the binary at the same path
+				os.Remove(bin)
+				place := func(dst string) {
+					switch r.Kind {
+					case "other-arch":
+						copyFile(pe.hello["386"], dst)
+					case "patched-after-linking":
+						b, _ := os.ReadFile(pe.hello["amd64"])
+						off := len(b) / 3 // somewhere in .text: the Go build-id note (near the start of the file) stays identical
+						for k := 0; k < 8; k++ {
+							b[off+k] ^= 0xff
+						}
+						os.WriteFile(dst, b, 0o755)
+					}
+				}
+				place(bin)
+				// what a cold-cache run prints for exactly this new binary (at a fresh path)
+				binN, cacheN := newBin()
+				os.Remove(binN)
+				place(binN)
+				rn := runProf(binN, small2, nil)
+				os.Remove(cacheN)
+				os.Remove(binN)
+				if rn.Exit != 0 {
+					return
+				}
+				cold2 := rn.Stdout
+				var wrapper []string
+				if r.HashFault > 0 {
+					wrapper = []string{"strace", "-f", "-o", "/dev/null", "-P", bin, "-e", "trace=read", "-e", fmt.Sprintf("inject=read:error=EIO:when=%d", r.HashFault)}
+				}
+				r2 := runProf(bin, small2, nil, wrapper...)
+				atomic.AddInt64(&runs, 1)
+				if r2.Exit == 0 && r2.Stdout != cold2 {
+					ctx.Violation("C17:binary-replaced:"+r.Kind, fmt.Sprintf("the binary at the same path was replaced (%s, hash read fault at read #%d) but the next run did not profile the new binary (reused cache: %v):\n--- got\n%s--- cold profile of the new binary\n%s", r.Kind, r.HashFault, strings.Contains(r2.Stderr, "Using cached objdump"), clip(r2.Stdout, 400), clip(cold2, 400)), r)
+				}
+			})
+		}
 	}
 	ctx.Cov["evaluations"] = runs
 	ctx.Cov["distinct_nontrivial"] = len(hs)
@@ -289,7 +352,7 @@ func checkC17(tier, replay string) int {
 	if straceUnavailable > 0 {
 		ctx.Capped("strace not available: write-level crash points skipped")
 	}
-	ctx.Cov["rule"] = "histories run1(fault)[; run2(fault')]; run(normal) on the real profiler binary with a fake `go` tool: disassembler prints the first p bytes of the listing and exits 1 or is killed (quick: every line boundary, every byte of the first two lines and of the execve site, around every 4096-byte flush boundary of a 20 kB listing; thorough: every byte), tool missing from PATH, the profiler itself killed with SIGKILL after the disassembler produced p bytes (every 1024 bytes of a 20 kB listing), SIGKILL or ENOSPC injected by strace at the N-th write to the cache file (N=1..9), and depth-2 fault sequences at line granularity; oracle: the final normal run prints exactly the cold-cache profile or exits non-zero, and a reused cache file equals the complete one; distinct_nontrivial = histories"
+	ctx.Cov["rule"] = "histories run1(fault)[; run2(fault')]; run(normal) on the real profiler binary with a fake `go` tool: disassembler prints the first p bytes of the listing and exits 1 or is killed (quick: every line boundary, every byte of the first two lines and of the execve site, around every 4096-byte flush boundary of a 20 kB listing; thorough: every byte), tool missing from PATH, the profiler itself killed with SIGKILL after the disassembler produced p bytes (every 1024 bytes of a 20 kB listing), SIGKILL or ENOSPC injected by strace at the N-th write to the cache file (N=1..9), and depth-2 fault sequences at line granularity; oracle: the final normal run prints exactly the cold-cache profile or exits non-zero, and a reused cache file equals the complete one; replacement histories: the binary at the same path is replaced by another one (other architecture; same file with bytes of .text flipped, i.e. identical Go build id), with and without an EIO injected at the N-th read while hashing: the next run must profile the new binary; distinct_nontrivial = histories"
 	ctx.Assumptions = []string{"the fake go tool stands for any disassembler failure; the cache path is <home>/.seccomp-profiler/<base>-<sha256(abs)[:10]> as the profiler logs it", "strace injection realises crashes at write granularity"}
 	return ctx.Finish()
 }
